@@ -842,6 +842,7 @@ class BptkServer(Flask):
         
         result = []
         locked = False
+        externalise = False
         try:
             instance = self._instance_manager.get_instance(instance_uuid)
             if not request.is_json:
@@ -859,6 +860,7 @@ class BptkServer(Flask):
             content = request.get_json()
             if "numberSteps" in content:
                 if "settings" in content:
+                    externalise = True
                     for i in range(0,content["numberSteps"]):
                         result.append(instance.run_step(settings=content["settings"], flat="flatResults" in content and content["flatResults"] == True))
                 else:
@@ -874,16 +876,19 @@ class BptkServer(Flask):
         except:
             pass
         finally:
-            # release the lock only if this request took it (a refused request must not unlock the running one)
-            if locked:
-                instance.unlock()
+            try:
+                # externalise while the lock is still held: otherwise a request accepted right after the unlock can store a
+                # newer session before this write lands, and the store is left with the older one
+                if externalise and self._external_state_adapter != None:
+                    self._external_state_adapter.save_instance(self._instance_manager._get_instance_state(instance_uuid))
+            finally:
+                # release the lock only if this request took it (a refused request must not unlock the running one)
+                if locked:
+                    instance.unlock()
         if result is not None:
             resp = make_response(jsonpickle.dumps(result), 200)
         else:
             resp = make_response('{"error": "no data was returned from run_step"}', 500)
-
-        if self._external_state_adapter != None:
-            self._external_state_adapter.save_instance(self._instance_manager._get_instance_state(instance_uuid))
 
         resp.headers['Content-Type'] = 'application/json'
         resp.headers['Access-Control-Allow-Origin']='*'
@@ -946,10 +951,13 @@ class BptkServer(Flask):
             except:
                 pass
             finally:
-                # release the lock however the stream ends: completion, an error or the client going away
-                instance.unlock()
-            if self._external_state_adapter != None:
-                self._external_state_adapter.save_instance(self._instance_manager._get_instance_state(instance_uuid))
+                try:
+                    # externalise while the lock is still held (see run-steps)
+                    if self._external_state_adapter != None:
+                        self._external_state_adapter.save_instance(self._instance_manager._get_instance_state(instance_uuid))
+                finally:
+                    # release the lock however the stream ends: completion, an error or the client going away
+                    instance.unlock()
 
         resp = Response(streamer())
         resp.headers['Content-Type'] = 'application/json'
